@@ -108,6 +108,7 @@ class Solver:
         self.entry_stack = []
         self.body_stack = []
         self.pclass_stack = [()]
+        self.events_stack = [set()]
         self.site_ord_cache = {}
 
     # ------------------------------------------------------------------ obligations
@@ -376,14 +377,32 @@ class Solver:
         """-> list of (cls, T) where cls in 'Ok','Err',True,False,'?','unwind',None"""
         key = (body.path, tracked, t0.kind, t0.uniq, t0.ref, t0.acq, t0.inc, dict(t0.facts).get("lenheap"), self.pclass_stack[-1])
         if key in self.summaries:
-            return self.summaries[key]
+            res, ev = self.summaries[key]
+            self.events_stack[-1].update(ev)
+            return res
         if key in self.inprogress:
             return [("?", t0)]
         self.inprogress.add(key)
-        res = self._run(body, tracked, t0)
-        self.inprogress.discard(key)
-        self.summaries[key] = res
+        self.events_stack.append(set())
+        try:
+            res = self._run(body, tracked, t0)
+        finally:
+            ev = self.events_stack.pop()
+            self.inprogress.discard(key)
+        self.summaries[key] = (res, frozenset(ev))
+        self.events_stack[-1].update(ev)
         return res
+
+    def walk(self, body, tracked, t0):
+        """-> (exit states, events): events = set of (fn, site, callee, local_key|None, descended, line, kind)
+        for every call executed on a feasible path of the walk, callees that received the tracked
+        object having been walked themselves (descended=True)."""
+        self.events_stack.append(set())
+        try:
+            res = self.summary(body, tracked, t0)
+        finally:
+            ev = self.events_stack.pop()
+        return res, ev
 
     def _run(self, body, tracked, t0):
         start = t0._replace(asg=False, dirty=False, ret=None, facts=frozenset(f for f in t0.facts if f[0] == "lenheap"))
@@ -736,6 +755,12 @@ class Solver:
 
         dest = t["dest"]
         dest_is_self = (not dest["p"] and tracked[0] == "local" and dest["l"] == tracked[1])
+        if cur:
+            will_descend = bool([c for c in can if c == "self"]) and bool(t.get("local_key")) and n not in VIEW_FNS
+            kinds = "".join(sorted({s.kind for s in cur}))
+            self.events_stack[-1].add((body.path, site, n, t.get("local_key"), will_descend, line, kinds, t.get("inst_crate") or t.get("callee_crate")))
+            for m in t.get("mono_calls", []):
+                self.events_stack[-1].add((body.path, site + "/mono", m["inst_def"], m.get("local_key"), False, line, kinds, m.get("inst_crate")))
 
         def finish(states):
             """route to the return block (and note tail-call result class)"""
